@@ -329,6 +329,229 @@ func main() {
 	}
 	sort.Strings(sharedRefs)
 
+	// ---- fork-configuration reads on the codec path (serialization.go, GenHash/GenHashes methods)
+	forkReads := 0
+	countFork := func(body *ast.BlockStmt) {
+		ast.Inspect(body, func(n ast.Node) bool {
+			if sel, ok := n.(*ast.SelectorExpr); ok {
+				if x, ok := sel.X.(*ast.Ident); ok && x.Name == "common" {
+					nm := sel.Sel.Name
+					if strings.HasPrefix(nm, "IsProposal") || nm == "GetBlockHeight" || nm == "LocalChainConfig" || nm == "GetChainId" {
+						forkReads++
+					}
+				}
+			}
+			return true
+		})
+	}
+	for _, d := range serFile.Decls {
+		if fd, ok := d.(*ast.FuncDecl); ok && fd.Body != nil {
+			countFork(fd.Body)
+		}
+	}
+	for _, fn := range []string{"core.go", "transaction.go"} {
+		if pf, err := parser.ParseFile(token.NewFileSet(), filepath.Join(repo, "src/middleware/types", fn), nil, 0); err == nil {
+			for _, d := range pf.Decls {
+				if fd, ok := d.(*ast.FuncDecl); ok && fd.Body != nil && (fd.Name.Name == "GenHash" || fd.Name.Name == "GenHashes") {
+					countFork(fd.Body)
+				}
+			}
+		}
+	}
+
+	// ---- call sites of the parsers outside package types
+	calleeID := map[string]int{"UnMarshalTransaction": 1, "UnMarshalTransactions": 2, "UnMarshalBlock": 3, "UnMarshalBlockHeader": 4,
+		"UnMarshalGroup": 5, "UnMarshalMember": 6, "PbToBlockHeader": 11, "PbToBlock": 12, "PbToGroup": 13, "PbToGroupHeader": 14,
+		"PbToGroups": 15, "PbToTransactions": 16}
+	type callSite struct {
+		area, callee, status int
+		where                string
+	}
+	var callSites []callSite
+	consensusRecovers := false
+	filepath.Walk(filepath.Join(repo, "src"), func(path string, info os.FileInfo, err error) error {
+		if err != nil || info.IsDir() || !strings.HasSuffix(path, ".go") || strings.HasSuffix(path, "_test.go") {
+			return nil
+		}
+		rel, _ := filepath.Rel(filepath.Join(repo, "src"), path)
+		if strings.HasPrefix(rel, "middleware/types/") || strings.HasPrefix(rel, "middleware/pb/") || strings.Contains(rel, "verif") {
+			return nil
+		}
+		pf, err := parser.ParseFile(token.NewFileSet(), path, nil, 0)
+		if err != nil {
+			return nil
+		}
+		alias := ""
+		for _, im := range pf.Imports {
+			ip, _ := strconv.Unquote(im.Path.Value)
+			if strings.HasSuffix(ip, "/src/middleware/types") {
+				alias = "types"
+				if im.Name != nil {
+					alias = im.Name.Name
+				}
+			}
+		}
+		area := 3
+		switch {
+		case strings.HasPrefix(rel, "network/") || rel == "core/msg_handler.go" || rel == "core/sync_msg.go":
+			area = 1
+		case strings.HasPrefix(rel, "consensus/net/"):
+			area = 2
+		}
+		for _, d := range pf.Decls {
+			fd, ok := d.(*ast.FuncDecl)
+			if !ok || fd.Body == nil {
+				continue
+			}
+			if rel == "consensus/net/network_handler.go" && fd.Name.Name == "Handle" {
+				ast.Inspect(fd.Body, func(n ast.Node) bool {
+					if ds, ok := n.(*ast.DeferStmt); ok {
+						ast.Inspect(ds, func(m ast.Node) bool {
+							if c, ok := m.(*ast.CallExpr); ok {
+								if id, ok := c.Fun.(*ast.Ident); ok && id.Name == "recover" {
+									consensusRecovers = true
+								}
+							}
+							return true
+						})
+					}
+					return true
+				})
+			}
+			if alias == "" {
+				continue
+			}
+			isParserCall := func(e ast.Expr) (int, bool) {
+				c, ok := e.(*ast.CallExpr)
+				if !ok {
+					return 0, false
+				}
+				sel, ok := c.Fun.(*ast.SelectorExpr)
+				if !ok {
+					return 0, false
+				}
+				x, ok := sel.X.(*ast.Ident)
+				if !ok || x.Name != alias {
+					return 0, false
+				}
+				id, ok := calleeID[sel.Sel.Name]
+				return id, ok
+			}
+			nilCmp := func(e ast.Expr, name string) bool {
+				found := false
+				ast.Inspect(e, func(n ast.Node) bool {
+					if be, ok := n.(*ast.BinaryExpr); ok && (be.Op == token.NEQ || be.Op == token.EQL) {
+						for _, pr := range [][2]ast.Expr{{be.X, be.Y}, {be.Y, be.X}} {
+							if isNil(pr[1]) {
+								switch v := pr[0].(type) {
+								case *ast.Ident:
+									if v.Name == name {
+										found = true
+									}
+								case *ast.SelectorExpr:
+									if b, ok := v.X.(*ast.Ident); ok && b.Name == name {
+										found = true
+									}
+								}
+							}
+						}
+					}
+					return true
+				})
+				return found
+			}
+			handledCalls := map[*ast.CallExpr]int{}
+			// statement-level forms
+			ast.Inspect(fd.Body, func(n ast.Node) bool {
+				var list []ast.Stmt
+				switch v := n.(type) {
+				case *ast.BlockStmt:
+					list = v.List
+				case *ast.CaseClause:
+					list = v.Body
+				case *ast.CommClause:
+					list = v.Body
+				default:
+					return true
+				}
+				blk := struct{ List []ast.Stmt }{list}
+				for i, st := range blk.List {
+					var as *ast.AssignStmt
+					var initOf *ast.IfStmt
+					switch v := st.(type) {
+					case *ast.AssignStmt:
+						as = v
+					case *ast.IfStmt:
+						if a, ok := v.Init.(*ast.AssignStmt); ok {
+							as, initOf = a, v
+						}
+					}
+					if as == nil || len(as.Rhs) != 1 {
+						continue
+					}
+					id, ok := isParserCall(as.Rhs[0])
+					if !ok {
+						continue
+					}
+					call := as.Rhs[0].(*ast.CallExpr)
+					status := 2
+					if id < 10 && len(as.Lhs) == 2 {
+						en, _ := as.Lhs[1].(*ast.Ident)
+						switch {
+						case en == nil:
+						case en.Name == "_":
+							status = 1
+						case initOf != nil && nilCmp(initOf.Cond, en.Name):
+							status = 0
+						default:
+							for j := i + 1; j < len(blk.List) && j <= i+3; j++ {
+								if is, ok := blk.List[j].(*ast.IfStmt); ok && nilCmp(is.Cond, en.Name) {
+									status = 0
+								}
+							}
+						}
+					} else if id >= 10 && len(as.Lhs) == 1 {
+						if vn, ok := as.Lhs[0].(*ast.Ident); ok {
+							for j := i + 1; j < len(blk.List); j++ {
+								if is, ok := blk.List[j].(*ast.IfStmt); ok && nilCmp(is.Cond, vn.Name) {
+									status = 0
+								}
+							}
+						}
+					}
+					handledCalls[call] = status
+				}
+				return true
+			})
+			ast.Inspect(fd.Body, func(n ast.Node) bool {
+				if c, ok := n.(*ast.CallExpr); ok {
+					if id, ok := isParserCall(c); ok {
+						status, seen := handledCalls[c]
+						if !seen {
+							status = 2 // nested in another expression: result used as it comes
+						}
+						callSites = append(callSites, callSite{area, id, status, rel + ":" + fd.Name.Name})
+					}
+				}
+				return true
+			})
+		}
+		return nil
+	})
+	sort.Slice(callSites, func(i, j int) bool {
+		a, b := callSites[i], callSites[j]
+		if a.area != b.area {
+			return a.area < b.area
+		}
+		if a.callee != b.callee {
+			return a.callee < b.callee
+		}
+		if a.status != b.status {
+			return a.status < b.status
+		}
+		return a.where < b.where
+	})
+
 	// ---- output
 	var sb strings.Builder
 	sb.WriteString("-- GENERATED by gen/cmd/c09facts from src/middleware/pb/x.pb.go and\n")
@@ -372,6 +595,26 @@ structure DerefSite where
 	}
 	sb.WriteString(". -/\n")
 	fmt.Fprintf(&sb, "def sharedStateRefs : Nat := %d\n\n", len(sharedRefs))
+	sb.WriteString("/-- Reads of the fork configuration (common.IsProposalNNN, GetBlockHeight, LocalChainConfig, GetChainId) in\n    serialization.go and in the GenHash/GenHashes methods: the codec and the identifying hashes do not depend on the\n    proposal schedule. -/\n")
+	fmt.Fprintf(&sb, "def forkFlagReads : Nat := %d\n\n", forkReads)
+	sb.WriteString(`/-- Every call of a parser of package types from another package: (area, callee, status).
+    area: 1 = p2p receive path (network/, core/msg_handler.go, core/sync_msg.go), 2 = consensus/net (entered through
+    the handler's Handle), 3 = local storage / rpc.
+    callee: 1 UnMarshalTransaction 2 UnMarshalTransactions 3 UnMarshalBlock 4 UnMarshalBlockHeader 5 UnMarshalGroup
+    6 UnMarshalMember 11 PbToBlockHeader 12 PbToBlock 13 PbToGroup 14 PbToGroupHeader 15 PbToGroups 16 PbToTransactions.
+    status: 0 = the error / nil result is tested right after the call, 1 = the error is discarded with _,
+    2 = the result is used as it comes. -/
+`)
+	sb.WriteString("def parserCallSites : List (Nat × Nat × Nat) := [")
+	for i, c := range callSites {
+		if i > 0 {
+			sb.WriteString(",")
+		}
+		fmt.Fprintf(&sb, "\n  (%d, %d, %d) /- %s -/", c.area, c.callee, c.status, c.where)
+	}
+	sb.WriteString("\n]\n\n")
+	sb.WriteString("/-- consensus/net: MessageHandler.Handle defers a recover() around every decoder it calls. -/\n")
+	fmt.Fprintf(&sb, "def consensusHandlerRecovers : Bool := %v\n\n", consensusRecovers)
 	sb.WriteString(`/-- Schema as the protobuf runtime sees it (struct tags of x.pb.go):
     (message id, field number, kind, label) with kind 0 = varint, 2 = length-delimited;
     label 0 = optional, 1 = required, 2 = repeated.
